@@ -598,6 +598,597 @@ fn bitstr_short(b: &[bool]) -> String {
 }
 
 // =============================================================================================
+// C03: presence semantics of every shape
+
+fn c03_single<T: ZooType>(ctx: &mut ZooCtx, u: &Universe, e: &TypeEntry) {
+    let (c, is_set) = match type_of(u, e) {
+        Some(Type::Sequence(c)) => (c.clone(), false),
+        Some(Type::Set(c)) => (c.clone(), true),
+        _ => return,
+    };
+    let nroot = c.root.len();
+    let comps: Vec<&Comp> = c.all().collect();
+    // indices whose presence varies
+    let var: Vec<usize> = (0..comps.len()).filter(|i| *i >= nroot || !matches!(comps[*i].presence, Presence::Mandatory)).collect();
+    let width = |comp: &Comp| -> usize {
+        match &comp.ty {
+            Type::Boolean => 1,
+            Type::Integer { c: Some(IntC { lo: Bound::Lit(a), hi: Bound::Lit(b), .. }), .. } => vgen::per::width_for_range((*b - *a) as u128 + 1) as usize,
+            _ => 0,
+        }
+    };
+    let value_of = |i: usize, comp: &Comp, variant: bool| -> Val {
+        match (&comp.ty, &comp.presence) {
+            (Type::Boolean, _) => Val::Bool(true),
+            (_, Presence::Default(_)) => Val::Int(if variant { 200 + i as i128 } else { 5 }),
+            _ => Val::Int((i as i128 + 3) % 8),
+        }
+    };
+    for pattern in 0u32..(1u32 << var.len()) {
+        ctx.rep.eval();
+        // present[i]: is component i encoded as present
+        let mut present = vec![true; comps.len()];
+        for (k, i) in var.iter().enumerate() {
+            present[*i] = pattern & (1 << k) != 0;
+        }
+        let vals: Vec<Option<Val>> = comps
+            .iter()
+            .enumerate()
+            .map(|(i, comp)| match &comp.presence {
+                Presence::Default(_) => Some(value_of(i, comp, present[i])), // absent = equal to the default
+                _ => {
+                    if present[i] {
+                        Some(value_of(i, comp, true))
+                    } else {
+                        None
+                    }
+                }
+            })
+            .collect();
+        let v = Val::Seq(vals);
+        let t: T = match make::<T>(ctx, u, e, &v, "c03") {
+            Some(t) => t,
+            None => continue,
+        };
+        // --- expected preamble, straight from the statement of the property
+        let any_add = present[nroot..].iter().any(|p| *p);
+        let first_add_absent_later_present = comps.len() > nroot && !present[nroot] && present[nroot + 1..].iter().any(|p| *p);
+        let mut preamble: Vec<bool> = Vec::new();
+        if c.ext.is_some() {
+            preamble.push(any_add);
+        }
+        let root_order: Vec<usize> = if is_set { vgen::resolve::set_root_order(u, e.module, &c) } else { (0..nroot).collect() };
+        for i in &root_order {
+            if !matches!(comps[*i].presence, Presence::Mandatory) {
+                preamble.push(present[*i]);
+            }
+        }
+        let root_bits: usize = root_order.iter().filter(|i| present[**i]).map(|i| width(comps[*i])).sum();
+        let shape = format!("{}{}", e.note["kinds"].as_str().unwrap_or("?"), if c.ext.is_some() { format!("/ext-after-{}", nroot) } else { String::new() });
+        let class = format!("{}:{}", if is_set { "SET" } else { "SEQUENCE" }, if any_add { "additions" } else { "root-only" });
+        let w_ = |extra: Value| json!({"type": e.def, "shape": shape, "set": is_set, "pattern": present.iter().map(|p| if *p { '1' } else { '0' }).collect::<String>(), "detail": extra});
+        // --- reference bits of the pattern (R-PER), including the ones asn1rs cannot write
+        let e0 = match vgen::per::encode(u, e.module, &e.def, &v) {
+            Ok((b, _)) => b,
+            Err(err) => {
+                ctx.rep.inconclusive(&format!("reference cannot encode a C03 pattern: {}", err));
+                continue;
+            }
+        };
+        if e0.bits.len() < preamble.len() || e0.bits[..preamble.len()] != preamble[..] {
+            ctx.rep.inconclusive("reference preamble differs from the preamble derived from the property statement");
+            continue;
+        }
+        // --- the writer
+        let mut w = UperWriter::default();
+        match guarded(|| w.write(&t)) {
+            Err(p) => ctx.rep.violation(&format!("c03:write:{}", p.signature()), w_(json!(null))),
+            Ok(Err(err)) => {
+                let kind = kind_name(&err);
+                if kind == "ExtensionFieldsInconsistent" && first_add_absent_later_present {
+                    ctx.rep.hist("outcomes", "sanctioned-refusal:first-addition-absent-later-present");
+                } else {
+                    ctx.rep.violation(&format!("c03:writer-refuses:{}:{}", kind, class), w_(json!({"error": format!("{}", err)})));
+                }
+            }
+            Ok(Ok(())) => {
+                let got = bytes_to_bools(w.byte_content(), w.bit_len());
+                if first_add_absent_later_present {
+                    // writing it is fine as well - then it has to be right
+                    ctx.rep.hist("outcomes", "wrote-first-addition-absent-pattern");
+                }
+                if got.len() < preamble.len() || got[..preamble.len()] != preamble[..] {
+                    let what = if c.ext.is_some() && got.first() != preamble.first() { "extension-bit" } else { "presence-bits" };
+                    ctx.rep.violation(&format!("c03:preamble:{}:{}", what, class), w_(json!({"uper": bitstr(&got), "expected_preamble": bitstr(&preamble)})));
+                } else if !any_add && got.len() != preamble.len() + root_bits {
+                    ctx.rep.violation(&format!("c03:length:{}", class), w_(json!({"uper_bits": got.len(), "expected": preamble.len() + root_bits})));
+                } else if got != e0.bits {
+                    ctx.rep.violation(&format!("c03:bits-differ-from-reference:{}", class), w_(json!({"uper": bitstr(&got), "x691": bitstr(&e0.bits)})));
+                }
+                // decode own bits
+                match decode_spy::<T>(w.byte_content(), w.bit_len()) {
+                    Ok((Ok(t2), pos, _, _)) => {
+                        if t2 != t || pos != w.bit_len() {
+                            ctx.rep.violation(&format!("c03:own-bits-decode-differently:{}", class), w_(json!({"uper": bitstr(&got)})));
+                        }
+                    }
+                    Ok((Err(err), _, _, _)) => ctx.rep.violation(&format!("c03:own-bits-rejected:{}:{}", kind_name(&err), class), w_(json!({"uper": bitstr(&got)}))),
+                    Err(p) => ctx.rep.violation(&format!("c03:read:{}", p.signature()), w_(json!(null))),
+                }
+            }
+        }
+        // --- the reader on the reference bits of every pattern
+        let cbytes = e0.to_bytes();
+        match decode_spy::<T>(&cbytes, e0.bits.len()) {
+            Ok((Ok(t2), pos, _, _)) => {
+                if t2 != t {
+                    let back = Extractor::extract(u, ctx.set_order, e.module, &e.def, &t2).map(|b| b.short()).unwrap_or_else(|e| e);
+                    ctx.rep.violation(
+                        &format!("c03:reference-bits-decode-to-other-value:{}{}", class, if first_add_absent_later_present { ":first-addition-absent" } else { "" }),
+                        w_(json!({"x691": bitstr(&e0.bits), "decoded": back, "expected": v.short()})),
+                    );
+                } else if pos != e0.bits.len() {
+                    ctx.rep.violation(&format!("c03:reference-bits-consumed-differ:{}", class), w_(json!({"x691": bitstr(&e0.bits), "consumed": pos})));
+                }
+            }
+            Ok((Err(err), _, _, _)) => ctx.rep.violation(&format!("c03:reference-bits-rejected:{}:{}", kind_name(&err), class), w_(json!({"x691": bitstr(&e0.bits)}))),
+            Err(p) => ctx.rep.violation(&format!("c03:read-reference:{}", p.signature()), w_(json!({"x691": bitstr(&e0.bits)}))),
+        }
+        ctx.rep.distinct(hash_str(&e.def) ^ ((pattern as u64) << 32) ^ 0xC03);
+        ctx.rep.hist("shapes", &format!("n{}{}{}", comps.len(), if c.ext.is_some() { ":ext" } else { "" }, if is_set { ":set" } else { "" }));
+        if pattern == 1 && e.id % 50 == 0 {
+            ctx.rep.sample(w_(json!({"x691": bitstr(&e0.bits), "preamble": bitstr(&preamble)})));
+        }
+    }
+}
+
+// =============================================================================================
+// C05: extension additions across schema versions
+
+struct SentinelC;
+impl asn1rs::descriptor::common::Constraint for SentinelC {
+    const TAG: asn1rs::model::asn::Tag = asn1rs::model::asn::Tag::DEFAULT_INTEGER;
+}
+impl asn1rs::descriptor::numbers::Constraint<u16> for SentinelC {
+    const MIN: Option<i64> = Some(0);
+    const MAX: Option<i64> = Some(65535);
+    const MIN_T: Option<u16> = Some(0);
+    const MAX_T: Option<u16> = Some(65535);
+}
+#[derive(Debug, PartialEq, Clone)]
+struct Sentinel(u16);
+impl Writable for Sentinel {
+    fn write<W: Writer>(&self, w: &mut W) -> Result<(), W::Error> {
+        use asn1rs::descriptor::WritableType;
+        asn1rs::descriptor::numbers::Integer::<u16, SentinelC>::write_value(w, &self.0)
+    }
+}
+impl Readable for Sentinel {
+    fn read<R: Reader>(r: &mut R) -> Result<Self, R::Error> {
+        use asn1rs::descriptor::ReadableType;
+        asn1rs::descriptor::numbers::Integer::<u16, SentinelC>::read_value(r).map(Sentinel)
+    }
+}
+const SENTINEL: u16 = 0xA5C3;
+
+/// one direction: a value of (module `from`) written with type W, read with type R (module `to`)
+fn c05_direction<W: ZooType, R: ZooType>(ctx: &mut ZooCtx, u: &Universe, e: &TypeEntry, from: usize, to: usize, dir: &str) {
+    let def = if from == 0 { e.def.clone() } else { e.pair_def.clone().unwrap_or_else(|| e.def.clone()) };
+    let def_to = if to == 0 { e.def.clone() } else { e.pair_def.clone().unwrap_or_else(|| e.def.clone()) };
+    let e_from = TypeEntry { module: from, def: def.clone(), ..e.clone() };
+    let e_to = TypeEntry { module: to, def: def_to.clone(), ..e.clone() };
+    let n = ctx.values_per_type * 5;
+    for k in 0..n {
+        let mut rng = ctx.rng_for(&e_from, k ^ if from == 0 { 0 } else { 1 << 20 });
+        let v = {
+            let mut g = ValGen::new(u, &mut rng);
+            g.ext_bias = 10;
+            g.gen_def(from, &def, 200)
+        };
+        ctx.rep.eval();
+        let t: W = match guarded(|| Injector::inject::<W>(u, ctx.set_order, from, &def, &v)) {
+            Ok(Ok(t)) => t,
+            _ => {
+                ctx.rep.hist("outcomes", "inject-failed");
+                continue;
+            }
+        };
+        let mut w = UperWriter::default();
+        match guarded(|| w.write(&t)) {
+            Ok(Ok(())) => {}
+            Ok(Err(_)) => {
+                ctx.rep.hist("outcomes", "encode-refused");
+                continue;
+            }
+            Err(p) => {
+                ctx.rep.violation(&format!("c05:write:{}", p.signature()), wit(u, &e_from, &v, json!(null)));
+                continue;
+            }
+        }
+        let boundary = w.bit_len();
+        let msg_bits = bytes_to_bools(w.byte_content(), boundary);
+        if w.write(&Sentinel(SENTINEL)).is_err() {
+            continue;
+        }
+        let total = w.bit_len();
+        let bytes = w.byte_content().to_vec();
+        // what a conforming decoder of the other version sees (R-PER decoder with the other schema)
+        let dec = Dec::new(u);
+        let mut inp = BitIn::new(&msg_bits);
+        let expected = dec.decode_def(to, &def_to, &mut inp);
+        let fs = feature_sig(u, &e_from, &v);
+        let r = guarded(|| {
+            let mut r = UperReader::from(SpyBits::new(&bytes, total));
+            let first = r.read::<R>();
+            let pos_after = total - r.bits_remaining().min(total);
+            let second = if first.is_ok() { Some(r.read::<Sentinel>()) } else { None };
+            (first, pos_after, second)
+        });
+        let wj = |extra: Value| json!({"direction": dir, "type": def, "value": v.short(), "uper": hex(&bytes), "message_bits": boundary, "asn1_writer": vgen::print::print_module(&u.modules[from]).chars().take(3000).collect::<String>(), "asn1_reader": vgen::print::print_module(&u.modules[to]).chars().take(3000).collect::<String>(), "detail": extra});
+        let kind = top_kind(u, &e_from);
+        match (r, expected) {
+            (Err(p), _) => ctx.rep.violation(&format!("c05:{}:read:{}", dir, p.signature()), wj(json!(null))),
+            (Ok((Ok(got), pos, second)), Ok(want)) => {
+                if inp.remaining() != 0 {
+                    ctx.rep.inconclusive("reference decoder of the other version did not consume the message");
+                    continue;
+                }
+                let back = Extractor::extract(u, ctx.set_order, to, &def_to, &got);
+                match back {
+                    Ok(b) if b == want => {}
+                    Ok(b) => {
+                        ctx.rep.violation(&format!("c05:{}:decoded-value-differs:{}:{}", dir, kind, fs), wj(json!({"decoded": b.short(), "expected": want.short()})));
+                        continue;
+                    }
+                    Err(err) => {
+                        ctx.rep.violation(&format!("c05:{}:extractor:{}", dir, err.chars().take(60).collect::<String>()), wj(json!(null)));
+                        continue;
+                    }
+                }
+                if pos != boundary {
+                    ctx.rep.violation(&format!("c05:{}:reader-does-not-end-at-message-end:{}:{}", dir, kind, fs), wj(json!({"reader_at": pos, "message_end": boundary})));
+                } else {
+                    match second {
+                        Some(Ok(Sentinel(s))) if s == SENTINEL => {
+                            ctx.rep.hist("outcomes", &format!("{}:ok", dir));
+                        }
+                        other => ctx.rep.violation(&format!("c05:{}:data-after-the-message-decodes-wrongly:{}", dir, kind), wj(json!({"sentinel": format!("{:?}", other.map(|r| r.map(|s| s.0).map_err(|e| kind_name(&e))))}))),
+                    }
+                }
+            }
+            (Ok((Ok(got), _, _)), Err(DecErr::UnknownExtension(_))) => {
+                // a CHOICE/ENUMERATED value the reader's version does not know: an error is fine, a value is not
+                let b = Extractor::extract(u, ctx.set_order, to, &def_to, &got).map(|b| b.short()).unwrap_or_default();
+                ctx.rep.violation(&format!("c05:{}:unknown-extension-decoded-as-a-value:{}:{}", dir, kind, fs), wj(json!({"decoded": b})));
+            }
+            (Ok((Err(_), _, _)), Err(DecErr::UnknownExtension(_))) => ctx.rep.hist("outcomes", &format!("{}:unknown-extension-rejected", dir)),
+            (Ok((Err(err), _, _)), Ok(_)) => ctx.rep.violation(&format!("c05:{}:decode-error:{}:{}:{}", dir, kind, kind_name(&err), fs), wj(json!({"error": format!("{}", err)}))),
+            (Ok(_), Err(other)) => ctx.rep.inconclusive(&format!("reference decoder failed: {:?}", other)),
+        }
+        ctx.rep.distinct(vgen::rng::hash_bytes(&bytes) ^ hash_str(dir) ^ (e.id as u64) << 40);
+        ctx.rep.hist("kinds", kind);
+        if k == 0 && e.id % 10 == 0 {
+            ctx.rep.sample(wj(json!(null)));
+        }
+    }
+}
+
+pub fn run_pair<A: ZooType, B: ZooType>(ctx: &mut ZooCtx, e: &TypeEntry) {
+    let u = match ctx.universe(e) {
+        Some(u) => u,
+        None => return,
+    };
+    if ctx.prop == "C05" {
+        c05_direction::<A, B>(ctx, u, e, 0, 1, "v1-to-v2");
+        c05_direction::<B, A>(ctx, u, e, 1, 0, "v2-to-v1");
+    }
+}
+
+// =============================================================================================
+// C06: the encoder rejects constraint violations
+
+#[derive(Clone, Debug)]
+pub struct Violation {
+    pub what: &'static str,
+    /// is the violated constraint extensible (then the value is legal and goes to the extension form)
+    pub extensible: bool,
+}
+
+/// all single-leaf constraint violations of (t, v): (mutated value, what was violated)
+fn violations_of(u: &Universe, mi: usize, t: &Type, v: &Val, rng: &mut Rng, out: &mut Vec<(Val, Violation)>, rebuild: &dyn Fn(Val) -> Val, depth: usize) {
+    if depth > 12 || out.len() > 60 {
+        return;
+    }
+    match (t, v) {
+        (Type::Ref(n), _) => {
+            if let Some((dmi, d)) = u.lookup_def(mi, n) {
+                violations_of(u, dmi, &d.ty, v, rng, out, rebuild, depth + 1);
+            }
+        }
+        (Type::Integer { c, .. }, Val::Int(_)) => {
+            let (root, ext) = vgen::resolve::int_root(c);
+            if let vgen::resolve::IntRoot::Constrained(a, b) = root {
+                for (x, what) in [(a - 1, "int:lb-1"), (b + 1, "int:ub+1"), (b + (1i128 << 31), "int:far-above"), (a - (1i128 << 31), "int:far-below")] {
+                    if x >= i64::MIN as i128 && x <= i64::MAX as i128 {
+                        out.push((rebuild(Val::Int(x)), Violation { what, extensible: ext }));
+                    }
+                }
+            }
+        }
+        (Type::OctetString { size }, Val::Bytes(_)) | (Type::BitString { size, .. }, Val::Bits(_)) | (Type::CharString { size, .. }, Val::Str(_)) | (Type::SequenceOf { size, .. }, Val::List(_)) | (Type::SetOf { size, .. }, Val::List(_)) => {
+            let make_len = |n: usize, rng: &mut Rng| -> Option<Val> {
+                Some(match (t, v) {
+                    (Type::OctetString { .. }, _) => Val::Bytes(rng.bytes(n)),
+                    (Type::BitString { .. }, _) => Val::Bits((0..n).map(|i| i % 2 == 0).collect()),
+                    (Type::CharString { cs, .. }, _) => {
+                        let alpha: Vec<char> = cs.alphabet().into_iter().filter(|c| c.is_ascii_alphanumeric()).collect();
+                        let alpha = if alpha.is_empty() { vec!['1'] } else { alpha };
+                        Val::Str((0..n).map(|_| *rng.pick(&alpha)).collect())
+                    }
+                    (Type::SequenceOf { elem, .. }, Val::List(l)) | (Type::SetOf { elem, .. }, Val::List(l)) => {
+                        let proto = match l.first() {
+                            Some(p) => p.clone(),
+                            None => {
+                                let mut g = ValGen::new(u, rng);
+                                g.gen(mi, elem, 20)
+                            }
+                        };
+                        Val::List(vec![proto; n])
+                    }
+                    _ => return None,
+                })
+            };
+            // UTF8String: the size constraint is not PER-visible but asn1rs checks it (in characters)
+            if let Some((lb, ub)) = size.bounds() {
+                let mut cands: Vec<(u64, &'static str)> = Vec::new();
+                if lb > 0 {
+                    cands.push((lb - 1, "size:lb-1"));
+                    cands.push((0, "size:0"));
+                }
+                if let Some(ub) = ub {
+                    if ub < 5000 {
+                        cands.push((ub + 1, "size:ub+1"));
+                        cands.push((2 * ub + 2, "size:2ub"));
+                    }
+                }
+                for (n, what) in cands {
+                    if n < lb || ub.map(|u| n > u).unwrap_or(false) {
+                        if let Some(x) = make_len(n as usize, rng) {
+                            out.push((rebuild(x), Violation { what, extensible: size.ext() }));
+                        }
+                    }
+                }
+            }
+            // alphabet
+            if let (Type::CharString { cs, .. }, Val::Str(s)) = (t, v) {
+                if *cs != Charset::Utf8 && !s.is_empty() {
+                    let chars: Vec<char> = s.chars().collect();
+                    let bad: &[char] = match cs {
+                        Charset::Numeric => &['a', '-', '\u{7f}', 'é', '\u{141}'],
+                        Charset::Printable => &['@', '_', '\u{0}', 'é', '\u{141}', '*'],
+                        Charset::Visible => &['\u{1f}', '\u{7f}', 'é', '\u{141}', '\u{4e00}', '\n'],
+                        _ => &['\u{80}', 'é', '\u{141}', '\u{4e00}', '\u{1f600}', '\u{ff}'],
+                    };
+                    for (pos, what) in [(0usize, "alphabet:first"), (chars.len() / 2, "alphabet:middle"), (chars.len() - 1, "alphabet:last")] {
+                        let mut c2 = chars.clone();
+                        c2[pos] = *rng.pick(bad);
+                        out.push((rebuild(Val::Str(c2.into_iter().collect())), Violation { what, extensible: false }));
+                    }
+                }
+            }
+            // elements of lists
+            if let (Type::SequenceOf { elem, .. }, Val::List(l)) | (Type::SetOf { elem, .. }, Val::List(l)) = (t, v) {
+                if let Some(first) = l.first() {
+                    let l2 = l.clone();
+                    let rb = move |x: Val| {
+                        let mut l3 = l2.clone();
+                        l3[0] = x;
+                        rebuild(Val::List(l3))
+                    };
+                    violations_of(u, mi, elem, first, rng, out, &rb, depth + 1);
+                }
+            }
+        }
+        (Type::Sequence(c), Val::Seq(f)) | (Type::Set(c), Val::Seq(f)) => {
+            for (i, comp) in c.all().enumerate() {
+                if let Some(Some(x)) = f.get(i) {
+                    let f2 = f.clone();
+                    let rb = move |y: Val| {
+                        let mut f3 = f2.clone();
+                        f3[i] = Some(y);
+                        rebuild(Val::Seq(f3))
+                    };
+                    violations_of(u, mi, &comp.ty, x, rng, out, &rb, depth + 1);
+                }
+            }
+        }
+        (Type::Choice { root, ext }, Val::Choice(i, inner)) => {
+            if let Some(a) = root.iter().chain(ext.iter().flatten()).nth(*i) {
+                let idx = *i;
+                let rb = move |y: Val| rebuild(Val::Choice(idx, Box::new(y)));
+                violations_of(u, mi, &a.ty, inner, rng, out, &rb, depth + 1);
+            }
+        }
+        _ => {}
+    }
+}
+
+fn c06_single<T: ZooType>(ctx: &mut ZooCtx, u: &Universe, e: &TypeEntry) {
+    let n = (ctx.values_per_type / 4).max(4);
+    for k in 0..n {
+        let base = gen_value(ctx, u, e, k);
+        // the unmutated value must itself be encodable, otherwise the refusal says nothing about the mutation
+        let base_ok = match guarded(|| Injector::inject::<T>(u, ctx.set_order, e.module, &e.def, &base)) {
+            Ok(Ok(t)) => {
+                let mut w = UperWriter::default();
+                matches!(guarded(|| w.write(&t)), Ok(Ok(())))
+            }
+            _ => false,
+        };
+        if !base_ok {
+            ctx.rep.hist("outcomes", "base-value-not-encodable");
+            continue;
+        }
+        let mut rng = ctx.rng_for(e, 5_000_000 + k);
+        let mut cands = Vec::new();
+        violations_of(u, e.module, &Type::Ref(e.def.clone()), &base, &mut rng, &mut cands, &|x| x, 0);
+        for (v, viol) in cands {
+            ctx.rep.eval();
+            // representable in the generated Rust type? (Injector -> Extractor identity)
+            let t: T = match guarded(|| Injector::inject::<T>(u, ctx.set_order, e.module, &e.def, &v)) {
+                Ok(Ok(t)) => t,
+                _ => {
+                    ctx.rep.hist("outcomes", "not-injectable");
+                    continue;
+                }
+            };
+            match guarded(|| Extractor::extract(u, ctx.set_order, e.module, &e.def, &t)) {
+                Ok(Ok(back)) if back == v => {}
+                _ => {
+                    ctx.rep.hist("outcomes", &format!("unrepresentable:{}", viol.what));
+                    continue;
+                }
+            }
+            // R-PER decides whether the mutated value is legal at all (extensible constraint) or not
+            let mut enc = Enc::new(u, Deviations::default());
+            let legal = enc.encode_def(e.module, &e.def, &v).is_ok();
+            if legal != viol.extensible {
+                // e.g. a freshly generated list element of a type without representable values
+                ctx.rep.hist("outcomes", if legal { "mutation-legal-per-reference-model" } else { "mutation-invalid-elsewhere" });
+                continue;
+            }
+            let mut w = UperWriter::default();
+            let r = guarded(|| w.write(&t));
+            let wj = |extra: Value| wit(u, e, &v, json!({"violated": viol.what, "extensible": viol.extensible, "detail": extra}));
+            match r {
+                Ok(Err(ref err)) if kind_name(err) == "ExtensionFieldsInconsistent" && ctx.known_classes.contains("first-addition-absent") => {
+                    // the mutation turned a DEFAULT addition into a present one behind an absent first addition: recorded under C02
+                    ctx.rep.hist("outcomes", "masked-by-known-class:first-addition-absent");
+                    continue;
+                }
+                Err(p) => ctx.rep.violation(&format!("c06:{}:write:{}", viol.what, p.signature()), wj(json!(null))),
+                Ok(Err(err)) => {
+                    let kind = kind_name(&err);
+                    if viol.extensible {
+                        ctx.rep.violation(&format!("c06:{}:extensible-constraint-but-writer-refuses:{}", viol.what, kind), wj(json!({"error": format!("{}", err)})));
+                    } else if !["ValueNotInRange", "SizeNotInRange", "InvalidString", "InvalidChoiceIndex"].contains(&kind.as_str()) {
+                        ctx.rep.violation(&format!("c06:{}:rejected-with-unexpected-error:{}", viol.what, kind), wj(json!({"error": format!("{}", err)})));
+                    } else {
+                        ctx.rep.hist("outcomes", &format!("rejected:{}:{}", viol.what, kind));
+                    }
+                }
+                Ok(Ok(())) => {
+                    let bytes = w.byte_content().to_vec();
+                    let bit_len = w.bit_len();
+                    if !viol.extensible {
+                        // what do the emitted bits decode to?
+                        let decoded = match decode_spy::<T>(&bytes, bit_len) {
+                            Ok((Ok(t2), _, _, _)) => {
+                                if t2 == t {
+                                    "the same value".to_string()
+                                } else {
+                                    format!("a different value: {}", Extractor::extract(u, ctx.set_order, e.module, &e.def, &t2).map(|b| b.short()).unwrap_or_default())
+                                }
+                            }
+                            Ok((Err(err), _, _, _)) => format!("error {}", kind_name(&err)),
+                            Err(p) => format!("panic {}", p.msg),
+                        };
+                        ctx.rep.violation(&format!("c06:{}:accepted-although-outside-a-non-extensible-constraint", viol.what), wj(json!({"uper": hex(&bytes).chars().take(200).collect::<String>(), "bits_decode_to": decoded})));
+                    } else {
+                        // extension form: must be X.691 (or a recorded deviation of another class) and round-trip
+                        let fs = feature_sig(u, e, &v);
+                        if round_trip_checks::<T>(ctx, u, e, &v, &t, &bytes, bit_len, &fs, "c06") {
+                            ctx.rep.hist("outcomes", &format!("extension-form-round-trips:{}", viol.what));
+                        }
+                        let mut enc = Enc::new(u, Deviations::default());
+                        if let Ok(e0) = enc.encode_def(e.module, &e.def, &v) {
+                            let got = bytes_to_bools(&bytes, bit_len);
+                            if got != e0.bits {
+                                let mut dev = Deviations::default();
+                                for c in &enc.classes {
+                                    if ctx.known_classes.contains(*c) {
+                                        dev.set(c, true);
+                                    }
+                                }
+                                let matches_dev = matches!(vgen::per::encode_dev(u, e.module, &e.def, &v, &dev), Ok(e1) if e1.bits == got);
+                                if !matches_dev {
+                                    ctx.rep.violation(&format!("c06:{}:extension-form-differs-from-x691", viol.what), wj(json!({"uper": bitstr_short(&got), "x691": bitstr_short(&e0.bits)})));
+                                }
+                            }
+                        }
+                    }
+                }
+            }
+            ctx.rep.hist("violated", viol.what);
+            ctx.rep.distinct(hash_val(&v) ^ (e.id as u64) << 40 ^ hash_str(viol.what));
+            if k == 0 && e.id % 30 == 0 {
+                ctx.rep.sample(json!({"type": e.def, "violated": viol.what, "extensible": viol.extensible, "value": v.short()}));
+            }
+        }
+    }
+}
+
+/// CHOICE/ENUMERATED indices cannot be forged through generated types: hand-written adversarial constraints
+pub fn c06_adversarial(rep: &mut Report) {
+    use asn1rs::descriptor::{choice, common, enumerated};
+    #[derive(Debug, PartialEq, Clone)]
+    struct Bad(u64);
+    impl common::Constraint for Bad {
+        const TAG: asn1rs::model::asn::Tag = asn1rs::model::asn::Tag::DEFAULT_ENUMERATED;
+    }
+    impl enumerated::Constraint for Bad {
+        const NAME: &'static str = "Bad";
+        const VARIANT_COUNT: u64 = 3;
+        const STD_VARIANT_COUNT: u64 = 3;
+        fn to_choice_index(&self) -> u64 {
+            self.0
+        }
+        fn from_choice_index(index: u64) -> Option<Self> {
+            if index < 3 {
+                Some(Bad(index))
+            } else {
+                None
+            }
+        }
+    }
+    #[derive(Debug, PartialEq, Clone)]
+    struct BadChoice(u64);
+    impl choice::Constraint for BadChoice {
+        const NAME: &'static str = "BadChoice";
+        const VARIANT_COUNT: u64 = 2;
+        const STD_VARIANT_COUNT: u64 = 2;
+        fn to_choice_index(&self) -> u64 {
+            self.0
+        }
+        fn write_content<W: Writer>(&self, _writer: &mut W) -> Result<(), W::Error> {
+            Ok(())
+        }
+        fn read_content<R: Reader>(index: u64, _reader: &mut R) -> Result<Option<Self>, R::Error> {
+            Ok(if index < 2 { Some(BadChoice(index)) } else { None })
+        }
+    }
+    impl common::Constraint for BadChoice {
+        const TAG: asn1rs::model::asn::Tag = asn1rs::model::asn::Tag::DEFAULT_SEQUENCE;
+    }
+    for idx in [3u64, 4, 64, 65, u64::MAX] {
+        rep.eval();
+        let mut w = UperWriter::default();
+        match guarded(|| w.write_enumerated(&Bad(idx))) {
+            Ok(Err(_)) => rep.hist("outcomes", "rejected:enumerated-index"),
+            Ok(Ok(())) => rep.violation("c06:enumerated-index:accepted-although-outside-a-non-extensible-constraint", json!({"index": idx})),
+            Err(p) => rep.violation(&format!("c06:enumerated-index:write:{}", p.signature()), json!({"index": idx})),
+        }
+        rep.eval();
+        let mut w = UperWriter::default();
+        match guarded(|| w.write_choice(&BadChoice(idx.min(u64::MAX)))) {
+            Ok(Err(_)) => rep.hist("outcomes", "rejected:choice-index"),
+            Ok(Ok(())) => rep.violation("c06:choice-index:accepted-although-outside-a-non-extensible-constraint", json!({"index": idx})),
+            Err(p) => rep.violation(&format!("c06:choice-index:write:{}", p.signature()), json!({"index": idx})),
+        }
+    }
+}
+
+// =============================================================================================
 // dispatch
 
 pub fn run<T: ZooType>(ctx: &mut ZooCtx, e: &TypeEntry) {
@@ -614,6 +1205,8 @@ pub fn run<T: ZooType>(ctx: &mut ZooCtx, e: &TypeEntry) {
             c01_hist_read::<T>(ctx, u, e, n, idx)
         }
         ("C02", Mode::Single) => c02_single::<T>(ctx, u, e),
+        ("C03", Mode::Single) => c03_single::<T>(ctx, u, e),
+        ("C06", Mode::Single) => c06_single::<T>(ctx, u, e),
         _ => {}
     }
 }
@@ -627,18 +1220,29 @@ impl<'a> ZooCtx<'a> {
 
 pub fn run_schemaless<T: ZooType>(_ctx: &mut ZooCtx, _e: &TypeEntry) {}
 
-pub fn run_pair<A: ZooType, B: ZooType>(_ctx: &mut ZooCtx, _e: &TypeEntry) {}
 
 pub fn rule_text(prop: &str) -> String {
     match prop {
         "C01" => "zoo types (random modules through the real front end + rustc, large-size family, edges, sets, hostile, protobuf edge, compat) x boundary-biased values injected through the Injector: write -> read through UperReader<SpyBits>: value equal (PartialEq and abstract Val via the Extractor), bits consumed == bits written, no read beyond the declared length, writer buffer == ceil(bits/8) with zero padding; histories of k in {2,3,5,8} values of random types written into one writer and read back in order with position == writer boundary. distinct = distinct (type, encoding) with bit_len > 0 and a non-leaf value, plus distinct histories".to_string(),
         "C02" => "profile values of the zoo types: writer bits == R-PER(schema, value) bit for bit, reader(R-PER bits) == value and consumes exactly them; reference self-test decode(encode(v)) == v on every case; class-complete coverage floor over the constraint classes of DESIGN.md section 4. distinct = distinct (type, value) with a non-empty encoding and a non-leaf value".to_string(),
+        "C03" => "bounded-exhaustive, seed-independent: every SEQUENCE/SET shape with n <= N components (N = 3 quick, 5 thorough) x {mandatory, OPTIONAL, DEFAULT}^n x extension marker {none, after component i} x all 2^k presence patterns (DEFAULT: default and non-default value); preamble derived from the property statement and compared bit by bit (extension bit, one presence bit per OPTIONAL/DEFAULT root component in order), total length, whole encoding vs R-PER, decode of own bits, decode of the reference bits of every pattern (incl. first addition absent / later present); refusal only as ExtensionFieldsInconsistent for exactly that pattern. distinct = distinct (shape, pattern)".to_string(),
+        "C05" => "schema pairs (V1, V2 = V1 + k extension additions / alternatives / enumeration items; additions of 1, 2, 63, 64, 127, 128, 129, 300 octets, OPTIONAL and mandatory, nested extensible), also nested as list element and non-last component; values of either version written with one version followed by a sentinel, read with the other: abstract value == R-PER decoder of the other version, reader position == message end, sentinel intact; unknown CHOICE/ENUMERATED extensions may fail but never yield a value. distinct = distinct (direction, pair, encoding)".to_string(),
+        "C06" => "every constrained leaf of generated values (zoo types incl. a dedicated edge family: single-value ranges, negative ranges, fixed/extensible/range sizes of every string and list kind): one violation at a time - INTEGER lb-1, ub+1, +-2^31; SIZE lb-1, 0, ub+1, 2ub; one illegal character at first/middle/last position per alphabet; only values the generated Rust type can hold (Injector->Extractor identity). Non-extensible => Err(ValueNotInRange|SizeNotInRange|InvalidString|InvalidChoiceIndex), Ok is a violation (replay says what the bits decode to); extensible => Ok, round trip, bits == R-PER. CHOICE/ENUMERATED indices through hand-written adversarial descriptor types. distinct = distinct (type, violating value, violated constraint)".to_string(),
         other => format!("zoo monitor {}", other),
     }
 }
 
 /// coverage floors and end-of-run bookkeeping
 pub fn finish(ctx: &mut ZooCtx) {
+    if ctx.prop == "C06" {
+        if ctx.rep.shard == 0 {
+            c06_adversarial(&mut ctx.rep);
+        }
+        for cell in ["int:lb-1", "int:ub+1", "size:lb-1", "size:ub+1", "alphabet:first", "alphabet:middle", "alphabet:last"] {
+            let n = ctx.rep.hist.get("violated").and_then(|h| h.get(cell)).copied().unwrap_or(0);
+            ctx.rep.floor.insert(format!("violated:{}", cell), n);
+        }
+    }
     if ctx.prop == "C02" {
         for cell in C02_FLOOR {
             let n = ctx.rep.hist.get("constraint-classes").map(|h| h.iter().filter(|(k, _)| k.starts_with(cell)).map(|(_, v)| *v).sum::<u64>()).unwrap_or(0);
